@@ -59,9 +59,11 @@ Print Assumptions C04_scripts_and_scans.
 (* ... and delivery, at the level of the event loop, for EVERY history (including histories in
    which the ticker applies new topologies while requests are in flight): a fragment written to (or
    queued for) a backend connection - unless a node redirected it there - is on a connection to the
-   node that owned the fragment's slot in the proxy's slot table when the request was routed
-   (routed: the request's routing record says so; C04_routing_record: that record is the slot table
-   of that moment); the connections a pool holds go to that pool's address (also after reconnects,
+   node the request's routing record names for the fragment's slot (routed); C04_routing_record:
+   that record is the routing plan computed when the request arrived; C04_plan_by_role: a plan names,
+   for a slot, the master of the set that owns the slot in the table in force or - only for a read
+   that may go to a replica, only with replica reads enabled - one of that set's replicas that has
+   a pool; C04_plan_is_the_slot_table: with replica reads off it is exactly the slot table; the connections a pool holds go to that pool's address (also after reconnects,
    rotation, eviction of dead connections and topology changes). *)
 Theorem C04_delivered_to_the_owner : forall cfg pools slots evs st s sv mid slot,
   Forall (fun p => pp_conns p = []) pools ->
@@ -76,11 +78,25 @@ Theorem C04_routing_record : forall st c m st1 targets,
   (N.eqb (cm_type m) UNKNOWN || (Sentinel <=? cm_type m))%bool = false ->
   N.eqb (cm_type m) ReqTooLarge = false -> N.eqb (cm_type m) ReqWrongArgumentsNumber = false ->
   N.eqb (cm_type m) ReqPing = false -> N.eqb (cm_type m) ReqQuit = false -> N.eqb (cm_type m) ReqAuth = false ->
-  resolve st (by_slot (cm_body m)) = (st1, inl targets) ->
+  resolve st (route_plan st (cm_type m) (by_slot (cm_body m))) = (st1, inl targets) ->
   exists pm, lookup (next_mid st1) (msgs (on_request st c m)) = Some pm /\
-             pm_route pm = map (fun sf => (fst sf, slot_master st (fst sf))) (by_slot (cm_body m)).
+             pm_route pm = route_plan st (cm_type m) (by_slot (cm_body m)).
 Proof. exact routing_record_is_the_slot_table. Qed.
 Print Assumptions C04_routing_record.
+
+Theorem C04_plan_by_role : forall st ty body slot a, In (slot, Some a) (route_plan st ty body) ->
+  exists m, slot_master st slot = Some m /\
+    (a = m \/
+     (In a (replicas_of (cfg st) m) /\ has_pool st a = true /\ cf_replica_reads (cfg st) = true /\
+      ty <= ReqWriteCmdStart /\ ty <> ReqHscan /\ ty <> ReqSscan /\ ty <> ReqZscan)).
+Proof. exact plan_by_role. Qed.
+Print Assumptions C04_plan_by_role.
+
+Theorem C04_plan_is_the_slot_table : forall st ty body, cf_replica_reads (cfg st) = false ->
+  (forall slot, slot_master st slot <> Some []) ->
+  route_plan st ty body = map (fun sf => (fst sf, slot_master st (fst sf))) body.
+Proof. exact plan_is_the_slot_table. Qed.
+Print Assumptions C04_plan_is_the_slot_table.
 
 Theorem C04_pools_hold_their_own_connections : forall cfg pools slots evs st p s sv,
   Forall (fun p => pp_conns p = []) pools ->
@@ -108,3 +124,25 @@ Example C04_witness :
   route false ReqSet (bs "m:1") [ {| r_addr := bs "r1:1"; r_pool := true; r_ban := false; r_lift_before_now := false |} ] (fun _ => O)
   = (bs "m:1", false).
 Proof. split; vm_compute; reflexivity. Qed.
+
+(* replica reads through the event loop: one master m:1 with the replica r:1.  A GET for which route
+   is seen to choose the replica goes to a connection to the replica, opened with READONLY; a SET
+   goes to the master whatever the oracle says (route cannot choose a replica for a write) *)
+Definition wr_cfg := {| cf_limit := 1000; cf_password := []; cf_timeout := false; cf_max_active := 1;
+                        cf_replica_reads := true; cf_reps := [(bs "m:1", [bs "r:1"])] |}.
+Definition wr_pools := [ {| pp_addr := bs "m:1"; pp_slave := false; pp_conns := []; pp_closed := false; pp_dialable := true |};
+                         {| pp_addr := bs "r:1"; pp_slave := true; pp_conns := []; pp_closed := false; pp_dialable := true |} ].
+Definition wr_slots := [ (0%Z, 16383%Z, bs "m:1") ].
+Definition wr_conns (r : result pst) : list (bytes * bytes) :=
+  match r with ROk st => map (fun e => (ps_addr (snd e), ps_got (snd e))) (servers st) | _ => [] end.
+
+Example C04_replica_witness :
+  let get := enc_request [bs "get"; bs "a"] in
+  let set := enc_request [bs "set"; bs "a"; bs "1"] in
+  wr_conns (run (init_state wr_cfg wr_pools wr_slots)
+              [EConnect 0 true; EChoices [(get, bs "r:1")]; EClientData 0 get []; ETasks []])
+  = [(bs "r:1", enc_request [bs "READONLY"] ++ get)] /\
+  wr_conns (run (init_state wr_cfg wr_pools wr_slots)
+              [EConnect 0 true; EChoices [(set, bs "r:1")]; EClientData 0 set []; ETasks []])
+  = [(bs "m:1", set)].
+Proof. cbv zeta. split; vm_compute; reflexivity. Qed.
